@@ -145,7 +145,7 @@ Qed.
 (* ---- the fate of a parked producer ------------------------------------------------------------------------- *)
 Definition thread_of (l : label) : option nat :=
   match l with
-  | LOffer p _ | LSelTok p | LSelCtx p | LRelockTok p | LRelockCtx p | LResult p | LAwaitCtx p => Some p
+  | LOffer p _ | LSelTok p | LSelCtx p | LRelockTok p | LRelockCtx p | LResult p | LAwaitCtx p | LOfferF p _ _ => Some p
   | _ => None
   end.
 
@@ -168,7 +168,7 @@ Proof.
   destruct (step_frame _ _ _ _ _ H) as (FR & AC & CA & _).
   assert (OTHER : thread_of l <> Some p -> fate p s').
   { intros N. unfold fate in *. rewrite (FR _ N).
-    destruct (pget p (prods s)) as [[sz|sz|sz| |[| | | | |e]]|]; auto. }
+    destruct (pget p (prods s)) as [[sz|sz|sz| |[| | | | |e|k]]|]; auto. }
   destruct l; try (apply OTHER; simpl; congruence);
     (destruct (Nat.eq_dec p0 p) as [->|NE]; [|apply OTHER; simpl; congruence]);
     clear OTHER FR AC CA; revert B F; unfold fate; revert H;
